@@ -4,7 +4,7 @@ from __future__ import annotations
 
 from harness import arrayops as ao
 from harness import gen
-from harness.streams import c05_frame
+from harness.streams import c05_frame, kernels
 
 RULE = ("one case = one operation (int/slice/mask/int-array selection, take with negatives and fill, concat, copy, dropna, "
         "pickle, element assignment with int/slice/mask/int-array keys and table/dict/NA/array-of-rows values, directly and "
@@ -38,6 +38,7 @@ def generate(ctx):
         op = ops[i % len(ops)]
         cases.append(op(rng, inp))
     cases.extend(c05_frame.generate(ctx))
+    cases.extend(kernels.generate(ctx, ctx.budget(64, 640)))
     for k, c in enumerate(cases):
         c["cid"] = k
     return cases
